@@ -246,6 +246,9 @@ def handleSched (d : DSt) (n : Nat) (kind : String) (c : Nat) (args obs : List S
       -- a skip re-inserts under the next_check read in the section (oracle input)
       if !isPick then
         d := setM d c fun cs => { cs with m := { cs.m with nextCheck := key } }
+      -- the counter as the logged events imply it (dispatches and plugin +1s minus the decrements), not the value the schedule
+      -- point happens to read: a harmless move of IncreasePendingChecks() into the critical section must not matter
+      let slotBefore := d.counter
       let st := d.view
       if !decide (schedEnabled st c now) then
         let x := cst.m
@@ -286,7 +289,8 @@ def handleSched (d : DSt) (n : Nat) (kind : String) (c : Nat) (args obs : List S
         d := latency d lateness
         d := { d with picks := d.picks + 1, forcedPicks := d.forcedPicks + (if f then 1 else 0),
                       caseForced := d.caseForced + (if f then 1 else 0) }
-        spec d n c [.slot cnt d.max, .decision c forcedModel false, .loc c i p]
+        let _ := cnt
+        spec d n c [.slot slotBefore d.max, .decision c forcedModel false, .loc c i p]
       else
         d := { d with skips := d.skips + 1, caseSkips := d.caseSkips + 1 }
         spec d n c [.decision c forcedModel true, .loc c i p]
@@ -439,7 +443,7 @@ def handle (d : DSt) (n : Nat) (line : String) : IO DSt := do
         d := { d with wakeSamples := d.wakeSamples + sorted.size }
         if d.wakeupAsync then d := { d with wakeAsyncMedianUs := max d.wakeAsyncMedianUs med }
         else d := { d with wakeMedianUs := max d.wakeMedianUs med }
-        if med ≥ 300000 then
+        if med ≥ 150000 then
           let cl := if d.wakeupAsync then "liveness_wakeup_when_process_finished" else "liveness_wakeup_when_slot_freed"
           IO.println s!"SPECFAIL line={n} case={d.caseNo} clause={cl} cid=1 median_delay_us={med} samples={sorted.size}"
           d := { d with specfails := d.specfails + 1 }
